@@ -132,7 +132,7 @@ fn c13_case(case: &(u64, bool, Vec<GasOp>)) -> CaseResult {
 
 pub fn c13(ctx: &mut Ctx) {
     let n = ctx.tier.pick(200_000, 20_000_000);
-    let strat = (u64_any(), prop::bool::weighted(0.1), prop::collection::vec(gas_op(), 1..40));
+    let strat = || (u64_any(), prop::bool::weighted(0.1), prop::collection::vec(gas_op(), 1..40));
     ctx.run_cases(
         "gas-meter",
         "random op sequences on interpreter::Gas vs an i128 model, compared after every op; non-trivial = sequence with both a failed and a successful non-zero charge; distinct by (limit, ops)",
@@ -491,7 +491,7 @@ pub fn c14(ctx: &mut Ctx) {
     ctx.run_cases(
         "formulas",
         "random arguments (edges + log-uniform over u64/U256) for num_words, memory_gas, copy, keccak, log, exp, create2, initcode, extcodecopy, intrinsic+floor gas; oracle = BigUint formulas, None <=> true value > u64::MAX; every evaluated case is non-trivial, distinct by argument tuple",
-        gas_fn(),
+        gas_fn,
         n,
         c14_case,
     );
@@ -605,7 +605,7 @@ pub fn c32(ctx: &mut Ctx) {
     ctx.run_cases(
         "blob-fee",
         "calc_blob_gasprice / fake_exponential / calc_excess_blob_gas vs the EIP-4844 definitions over BigUint; non-trivial = true price > 1 that fits u128, or e+u>t; distinct by argument tuple",
-        blob_fn(),
+        blob_fn,
         n,
         c32_case,
     );
@@ -739,7 +739,7 @@ fn code_bytes(max: usize) -> impl Strategy<Value = Vec<u8>> {
 
 pub fn c27(ctx: &mut Ctx) {
     let n = ctx.tier.pick(100_000, 5_000_000);
-    let strat = prop_oneof![
+    let strat = || prop_oneof![
         5 => code_bytes(400).prop_map(CodeCase::Legacy),
         2 => (0u8..3, prop_oneof![prop::collection::vec(any::<u8>(), 0..60), prop::collection::vec(any::<u8>(), 20..=21)]).prop_map(|(k, b)| CodeCase::Prefixed(k, b)),
         2 => any::<[u8; 20]>().prop_map(CodeCase::Designator),
